@@ -8,7 +8,17 @@
 //   qp:i:n     queue i .Pop(n)                  sm:j:i     stack j .MoveToIOQueue(queue i)
 //   qm:i:j     queue i .AppendMove(queue j)     sd:j       delete stack j; new IOStack(pool)
 //   qc:i       queue i .Clear()                 pg         pool.Purge()
-// After EVERY op: Size(), Empty(), AsIOVec() of every buffer, FreeBlocks(), BlocksAllocated().
+// Extended payload (label starts with 'X'): "<Xlabel> <bs> <nq> <ns> <max> <op> ..." - queue 0 is the
+// m_output_buffer of a real NonBlockingSender(descriptor, mock select server, pool, max); extra ops
+//   xs:j       sender.SendMessage(stack j)      xq:i       sender.SendMessage(queue i)
+//   xw:k       descriptor becomes writable -> PerformWrite(); the kernel (interposed writev) accepts
+//              min(k, offered) bytes            xe         same, writev fails with -1/EAGAIN
+//   xl         sender.LimitReached()
+//   qi:i:w     BigEndianInputStream(queue i) >> uint{8w}_t
+//   mb:hex:c,c,..  MemoryBuffer over the bytes, then calls rN = Read(uint8_t*, N), sN = ReadString(N),
+//              iW = BigEndianInputStream >> uint{8W}_t
+// After EVERY op: Size(), Empty(), AsIOVec() of every buffer, FreeBlocks(), BlocksAllocated()
+// (+ m_associated and the select server's write registration in extended mode).
 // Output buffers for Read/Peek are exact-size heap arrays so that ASan sees any overrun.
 #include <stdint.h>
 #include <string.h>
@@ -28,6 +38,16 @@
 #include "ola/io/IOStack.h"
 #undef private
 #include "ola/io/BigEndianStream.h"
+#include "ola/io/MemoryBuffer.h"
+#include <errno.h>
+#include <fcntl.h>
+#include <sys/uio.h>
+#include <unistd.h>
+#define private public
+#include "ola/io/NonBlockingSender.h"
+#undef private
+#include "ola/io/Descriptor.h"
+#include "ola/io/SelectServerInterface.h"
 
 using ola::io::IOQueue;
 using ola::io::IOStack;
@@ -37,12 +57,71 @@ using ola::io::MemoryBlockPool;
 using std::string;
 using std::vector;
 
+// ---- the kernel side of the descriptor: scripted writev (linked with -Wl,--wrap=writev)
+static bool g_scripted = false;
+static long g_accept = 0;          // < 0: fail
+static int g_calls = 0;
+static vector<uint8_t> g_taken;
+extern "C" ssize_t __real_writev(int fd, const struct iovec *iov, int iovcnt);
+extern "C" ssize_t __wrap_writev(int fd, const struct iovec *iov, int iovcnt) {
+  if (!g_scripted) return __real_writev(fd, iov, iovcnt);
+  g_calls++;
+  if (g_accept < 0) { errno = EAGAIN; return -1; }
+  size_t left = g_accept;
+  for (int k = 0; k < iovcnt && left; k++) {
+    size_t n = std::min(left, static_cast<size_t>(iov[k].iov_len));
+    const uint8_t *p = static_cast<const uint8_t*>(iov[k].iov_base);
+    g_taken.insert(g_taken.end(), p, p + n);   // ASan checks the iovec really is readable
+    left -= n;
+  }
+  return g_taken.size();
+}
+
+class ScriptedDescriptor: public ola::io::ConnectedDescriptor {
+ public:
+  explicit ScriptedDescriptor(int fd): m_fd(fd) {}
+  ola::io::DescriptorHandle ReadDescriptor() const { return m_fd; }
+  ola::io::DescriptorHandle WriteDescriptor() const { return m_fd; }
+  bool Close() { return true; }
+ protected:
+  bool IsSocket() const { return false; }   // -> the writev() branch of Send(IOQueue*)
+ private:
+  int m_fd;
+};
+
+class MockSS: public ola::io::SelectServerInterface {
+ public:
+  MockSS(): registered(false) {}
+  bool registered;
+  bool AddReadDescriptor(ola::io::ReadFileDescriptor*) { return true; }
+  bool AddReadDescriptor(ola::io::ConnectedDescriptor*, bool) { return true; }
+  void RemoveReadDescriptor(ola::io::ReadFileDescriptor*) {}
+  void RemoveReadDescriptor(ola::io::ConnectedDescriptor*) {}
+  bool AddWriteDescriptor(ola::io::WriteFileDescriptor*) { registered = true; return true; }
+  void RemoveWriteDescriptor(ola::io::WriteFileDescriptor*) { registered = false; }
+  ola::thread::timeout_id RegisterRepeatingTimeout(unsigned int, ola::Callback0<bool>*) { return NULL; }
+  ola::thread::timeout_id RegisterRepeatingTimeout(const ola::TimeInterval&, ola::Callback0<bool>*) { return NULL; }
+  ola::thread::timeout_id RegisterSingleTimeout(unsigned int, ola::SingleUseCallback0<void>*) { return NULL; }
+  ola::thread::timeout_id RegisterSingleTimeout(const ola::TimeInterval&, ola::SingleUseCallback0<void>*) { return NULL; }
+  void RemoveTimeout(ola::thread::timeout_id) {}
+  const ola::TimeStamp *WakeUpTime() const { return NULL; }
+  void Execute(ola::BaseCallback0<void>*) {}
+  void DrainCallbacks() {}
+};
+
 struct World {
   MemoryBlockPool *pool;
   vector<IOQueue*> q;
   vector<IOStack*> s;
+  ScriptedDescriptor *desc;
+  MockSS *ss;
+  ola::io::NonBlockingSender *sender;   // q[0] aliases sender->m_output_buffer when set
+  int fd;
+  World(): pool(NULL), desc(NULL), ss(NULL), sender(NULL), fd(-1) {}
   ~World() {
-    for (size_t i = 0; i < q.size(); i++) delete q[i];
+    for (size_t i = sender ? 1 : 0; i < q.size(); i++) delete q[i];
+    delete sender; delete desc; delete ss;
+    if (fd >= 0) close(fd);
     for (size_t i = 0; i < s.size(); i++) delete s[i];
     delete pool;
   }
@@ -73,6 +152,39 @@ static string read_str(T *buf, unsigned n) {
   return vh::hex(out.substr(2));
 }
 
+template <typename T>
+static string be_read(T *buf, unsigned w) {
+  ola::io::BigEndianInputStream in(buf);
+  bool ok;
+  unsigned long long v;
+  if (w == 1) { uint8_t x = 0xa5; ok = in >> x; v = x;
+  } else if (w == 2) { uint16_t x = 0xa5a5; ok = in >> x; v = x;
+  } else { uint32_t x = 0xa5a5a5a5; ok = in >> x; v = x; }
+  return ok ? "v" + vh::str(v) : string("short");
+}
+
+static string membuf(const string &hexdata, const string &script) {
+  vector<uint8_t> d = vh::unhex(hexdata);
+  vh::Exact e(d);
+  ola::io::MemoryBuffer mb(e.p, e.n);
+  string out;
+  vector<string> calls = vh::split(script, ',');
+  for (size_t k = 0; k < calls.size(); k++) {
+    if (calls[k].empty()) continue;
+    unsigned n = vh::num(calls[k].substr(1));
+    if (k) out += ".";
+    if (calls[k][0] == 'r') out += read_mem(&mb, n);
+    else if (calls[k][0] == 's') {
+      ola::io::BigEndianInputStream in(&mb);
+      string o("zz");
+      unsigned r = in.ReadString(&o, n);
+      out += (o.size() != 2 + r) ? string("BADAPPEND") : vh::hex(o.substr(2));
+    }
+    else out += be_read(&mb, n);
+  }
+  return out;
+}
+
 // Size, Empty, concatenated iovec (property level) and segment / first-last layout (internal)
 template <typename T>
 static void observe(const T *buf, const string &name, std::ostringstream *spec,
@@ -100,20 +212,52 @@ static void observe(const T *buf, const string &name, std::ostringstream *spec,
   }
 }
 
+// "Pcross <bsA> <bsB> <hex> <n>": two pools, qa(&A).Write(bytes); qb(&B).AppendMove(&qa);
+// qb.Read(n); observe; B.Purge(); observe   (known finding C15-crosspool)
+static string crosspool(const vector<string> &a) {
+  if (a.size() != 5) return "bad-payload";
+  MemoryBlockPool A(vh::num(a[1])), B(vh::num(a[2]));
+  std::ostringstream res;
+  {
+    IOQueue qa(&A), qb(&B);
+    vector<uint8_t> d = vh::unhex(a[3]);
+    vh::Exact e(d);
+    qa.Write(e.p, e.n);
+    qb.AppendMove(&qa);
+    string got = read_mem(&qb, vh::num(a[4]));
+    res << "class=" << a[0] << ";read=" << got << ";A=" << A.BlocksAllocated() << "," << A.FreeBlocks()
+        << ";B=" << B.BlocksAllocated() << "," << B.FreeBlocks() << "," << qb.m_blocks.size();
+    B.Purge();
+    res << ";Bpurged=" << B.BlocksAllocated();
+  }
+  return res.str();
+}
+
 static string handle(const string &payload) {
   vector<string> a = vh::split(payload);
+  if (!a.empty() && a[0][0] == 'P') return crosspool(a);
   if (a.size() < 4) return "bad-payload";
+  const bool ext = a[0][0] == 'X';
+  const size_t first = ext ? 5 : 4;
+  if (a.size() < first || (ext && vh::num(a[2]) < 1)) return "bad-payload";
   World w;
   w.pool = new MemoryBlockPool(vh::num(a[1]));
-  for (unsigned i = 0; i < vh::num(a[2]); i++) w.q.push_back(new IOQueue(w.pool));
+  if (ext) {
+    w.fd = open("/dev/null", O_WRONLY);
+    w.desc = new ScriptedDescriptor(w.fd);
+    w.ss = new MockSS();
+    w.sender = new ola::io::NonBlockingSender(w.desc, w.ss, w.pool, vh::num(a[4]));
+    w.q.push_back(&w.sender->m_output_buffer);
+  }
+  for (unsigned i = ext ? 1 : 0; i < vh::num(a[2]); i++) w.q.push_back(new IOQueue(w.pool));
   for (unsigned i = 0; i < vh::num(a[3]); i++) w.s.push_back(new IOStack(w.pool));
   std::ostringstream res;
   res << "class=" << a[0];
-  for (size_t k = 4; k < a.size(); k++) {
+  for (size_t k = first; k < a.size(); k++) {
     vector<string> f = vh::split(a[k], ':');
     const string &op = f[0];
-    unsigned x = f.size() > 1 ? vh::num(f[1]) : 0;
-    unsigned n = f.size() > 2 && op != "qw" && op != "sw" ? vh::num(f[2]) : 0;
+    unsigned x = f.size() > 1 && op != "mb" ? vh::num(f[1]) : 0;
+    unsigned n = f.size() > 2 && op != "qw" && op != "sw" && op != "mb" ? vh::num(f[2]) : 0;
     string ret = ".";
     if (op == "qw" || op == "sw") {
       vector<uint8_t> d = vh::unhex(f[2]);
@@ -137,6 +281,17 @@ static string handle(const string &payload) {
     } else if (op == "qc") { w.q[x]->Clear();
     } else if (op == "sd") { delete w.s[x]; w.s[x] = new IOStack(w.pool);
     } else if (op == "pg") { w.pool->Purge();
+    } else if (op == "qi") { ret = be_read(w.q[x], n);
+    } else if (op == "mb") { ret = membuf(f[1], f.size() > 2 ? f[2] : "");
+    } else if (ext && op == "xs") { ret = w.sender->SendMessage(w.s[x]) ? "T" : "F";
+    } else if (ext && op == "xq") { ret = w.sender->SendMessage(w.q[x]) ? "T" : "F";
+    } else if (ext && op == "xl") { ret = w.sender->LimitReached() ? "T" : "F";
+    } else if (ext && (op == "xw" || op == "xe")) {
+      g_scripted = true; g_accept = op == "xe" ? -1 : static_cast<long>(x); g_calls = 0; g_taken.clear();
+      w.desc->PerformWrite();             // runs the on-writable callback = sender.PerformWrite()
+      g_scripted = false;
+      if (g_calls != 1) ret = "WRITEV-CALLS" + vh::str(g_calls);
+      else ret = op == "xe" ? string("ERR") : vh::hex(g_taken);
     } else { return "bad-op"; }
     std::ostringstream spec, inner;
     unsigned blocks = 0;
@@ -150,9 +305,10 @@ static string handle(const string &payload) {
       observe(w.s[j], "s" + vh::str(j), &spec, &inner, &blocks, &nonempty);
     }
     unsigned fr = w.pool->FreeBlocks(), al = w.pool->BlocksAllocated();
-    res << ";o" << (k - 4) << "=" << ret << spec.str() << "/acct" << (al == fr + blocks ? 1 : 0)
+    res << ";o" << (k - first) << "=" << ret << spec.str() << "/acct" << (al == fr + blocks ? 1 : 0)
         << ",held-nonempty" << (nonempty ? 1 : 0);
-    res << ";i" << (k - 4) << "=" << inner.str() << "/free" << fr << ",alloc" << al;
+    if (ext) res << "/assoc" << (w.sender->m_associated ? 1 : 0) << ",reg" << (w.ss->registered ? 1 : 0);
+    res << ";i" << (k - first) << "=" << inner.str() << "/free" << fr << ",alloc" << al;
   }
   return res.str();
 }
